@@ -489,6 +489,11 @@ def make_spec(family, seed, scale=1.0):
             for j in range(len(c2)):
                 if not any((i, j) in vals for i in range(len(c1))):
                     vals[(rnd.randrange(len(c1)), j)] = (_val(rnd, vf1), _val(rnd, vf2))
+            if vf2:
+                # cells that adjust the second glyph only (first value record all zero)
+                for key in sorted(vals, key=repr):
+                    if rnd.random() < 0.15:
+                        vals[key] = ((0, 0, 0), vals[key][1])
             st = dict(c1=c1, c2=c2, vals=vals, vf1=vf1, vf2=vf2)
             shape = rnd.random()
             if nsub > 1 and s == 0 and rnd.random() < 0.5:
